@@ -27,12 +27,12 @@ func init() {
 			"stored expiry (Walk) within the C10 interval of the expected TTL, SkipRead forces a build whose result is stored; distinct_nontrivial = distinct (config, caller cell, update list, path) combinations judged",
 		Required:    []string{"final_writes.checked", "refresh_writes.checked", "bg_builds.checked", "bg_builds.caller_cancelled", "skipread.owner_built", "expiry.checked", "fold.with_cell", "fold.zero_update_on_nonzero", "caller_ttl_after.checked", "path.sync", "path.bg"},
 		Assumptions: []string{"without a caller TTL cell the doc promises no propagation: both the backend default and the builder's minimum are accepted", "expiry bounds as in C10 (jitter default 0.1)"},
-		Timeout:     func(string) time.Duration { return 25 * time.Minute },
+		Timeout:     func(string) time.Duration { return 45 * time.Minute },
 	})
 }
 
 func runC06(b *Batch) {
-	n := b.Pick(3200, 64000) / b.NBatches
+	n := b.Pick(3200, 480000) / b.NBatches
 	for i := 0; i < n; i++ {
 		if b.Skip(i) {
 			continue
